@@ -134,6 +134,18 @@ pub fn judge(entry: &str, pre: &Pre, db: &Db, receipt: &TransactionReceipt, ctx:
         }
     }
 
+    // ---- the receipt must not report entities created by a failed transaction ----
+    {
+        let s = &c.state_update_summary;
+        if !(s.new_packages.is_empty() && s.new_components.is_empty() && s.new_resources.is_empty() && s.new_vaults.is_empty()) {
+            return Err(fail(
+                entry,
+                "failed commit reports new entities in its receipt",
+                format!("{} ; new packages {:?} components {:?} resources {:?} vaults {:?} :: {}", out, s.new_packages, s.new_components, s.new_resources, s.new_vaults, ctx()),
+            ));
+        }
+    }
+
     // ---- raw difference of the database ----
     let post = dump(db);
     let d = diff(&pre.dump, &post);
@@ -541,12 +553,12 @@ pub fn check() -> Check {
     Check::new(
         "C02",
         "Failed, rejected and aborted transactions change nothing but fees",
-        "A generated manifest (typed manifest generator: transfers, mint/burn, NF operations, faucet and WAT calls, puppet scripts writing component state / creating nodes and KV entries, calls of a royalty-charging component; 45% end in one of 14 deliberate failures; fee from the faucet, 1-3 account vaults incl. contingent locks, too small, or none) is run on a state reached by 0-3 committed generated transactions. After the untouched run, the repository's execute_manifest_with_injected_error is run at injection indices 1..K-1 (K = first index at which the run completes untouched, learnt by galloping and bisection; the quick tier sweeps all indices when K-1 <= 400 and 400 evenly spaced ones otherwise, thorough sweeps all), then once with abort_when_loan_repaid, and three times with the fee section replaced by a single lock of an amount around the real cost (x0.5, x0.9, x0.99, cost-1 atto, cost, cost+1 atto, x1.05, 0.2, 0.25). The pre-state is restored before every run. Each run is judged: Reject/Abort => database identical to the pre-state; Commit-Failure => raw database difference (harness dump before vs after) contains only {balance field of an XRD vault named by a LockFeeEvent of this transaction, ConsensusManager validator-rewards field, rewards vault balance, transaction tracker field / one status entry / removed tracker entries}, no node that did not exist, only LockFee / PayFee / rewards-vault Deposit / XRD burn events, sum of fee-vault decreases = total cost (free credit 0) = rewards vault increase + burn event amount, no royalty cost, validator rewards bookkeeping monotone, and the harness's full-ledger scan reports supply == sum of vaults for every tracked resource. Non-trivial = at least one injected run committed as a failure after the transaction had already written a non-fee substate into the track (located with the detailed cost breakdown of the untouched run: cost units consumed at the first TrackSubstateUpdated of a substate that is not one of the plan's fee vaults). Distinct = distinct decoded choice sequences.",
+        "A generated manifest (typed manifest generator: transfers, mint/burn, NF operations, faucet and WAT calls, puppet scripts writing component state / creating nodes and KV entries, calls of a royalty-charging component; 45% end in one of 15 deliberate failures; fee from the faucet, 1-3 account vaults incl. contingent locks, too small, or none) is run on a state reached by 0-3 committed generated transactions. After the untouched run, the repository's execute_manifest_with_injected_error is run at injection indices 1..K-1 (K = first index at which the run completes untouched, learnt by galloping and bisection; the quick tier sweeps all indices when K-1 <= 400 and 400 evenly spaced ones otherwise, thorough sweeps all), then once with abort_when_loan_repaid, and three times with the fee section replaced by a single lock of an amount around the real cost (x0.5, x0.9, x0.99, cost-1 atto, cost, cost+1 atto, x1.05, 0.2, 0.25). The pre-state is restored before every run. Each run is judged: Reject/Abort => database identical to the pre-state; Commit-Failure => raw database difference (harness dump before vs after) contains only {balance field of an XRD vault named by a LockFeeEvent of this transaction, ConsensusManager validator-rewards field, rewards vault balance, transaction tracker field / one status entry / removed tracker entries}, no node that did not exist and no new entity listed in the receipt, only LockFee / PayFee / rewards-vault Deposit / XRD burn events, sum of fee-vault decreases = total cost (free credit 0) = rewards vault increase + burn event amount, no royalty cost, validator rewards bookkeeping monotone, and the harness's full-ledger scan reports supply == sum of vaults for every tracked resource. Non-trivial = at least one injected run committed as a failure after the transaction had already written a non-fee substate into the track (located with the detailed cost breakdown of the untouched run: cost units consumed at the first TrackSubstateUpdated of a substate that is not one of the plan's fee vaults). Distinct = distinct decoded choice sequences.",
     )
     .level(Level::FaultEnumeration)
     .assume("injection points are those of the repository's InjectCostingError wrapper (every kernel callback and every cost application); errors raised elsewhere are covered only by the naturally failing manifests")
     .assume("test transactions carry no intent-hash nullification, so the tracker status entry branch of the allowed set is not exercised (the tracker field rewrite is)")
     .assume("the 'after a non-fee write' classification uses cost units consumed as a position marker; it affects only the non-trivial count, never a verdict")
-    .part(Part::new("manifest x injection index", 120, 1500, 6000, case))
+    .part(Part::new("manifest x injection index", 120, 800, 6000, case))
     .min_nontrivial_pct(15.0)
 }
